@@ -298,7 +298,7 @@ def r3_reset_complete(ctx, rid: str = "C15.R3") -> None:
         helper_hit = None
         for hc in walk_no_nested(ap.node):
             if isinstance(hc, ast.Expr) and isinstance(hc.value, ast.Call) and isinstance(hc.value.func, ast.Attribute) and isinstance(hc.value.func.value, ast.Name) \
-                    and hc.value.func.value.id == "self" and not hc.value.args:
+                    and hc.value.func.value.id == "self" and all(isinstance(a_, ast.Name) and a_.id in ap.params() for a_ in hc.value.args):
                 hm = prog.lookup_method(pq, hc.value.func.attr)
                 if hm is None:
                     continue
@@ -513,6 +513,10 @@ def _restore_uses_saved(prog, fi: FuncInfo, t: ast.Try, restore: ast.stmt, attr:
                 if unparse(val) in (f"self.{attr}", f"self.__class__.{attr}", f"cls.{attr}", f"type(self).{attr}"):
                     if key != attr:
                         return f"restores from the save of {key!r}, not of {attr!r}"
+                    recv = unparse(restore.targets[0].value) if isinstance(restore.targets[0], ast.Attribute) else ""
+                    if recv in ("self.__class__", "type(self)", "cls") and unparse(val) == f"self.{attr}":
+                        return (f"writes the class attribute from a value read through the instance (self.{attr}): an instance attribute of that name "
+                                "(a per-instance backend option) is promoted to the class by the first negated rendering and changes every other instance")
                     return None
                 return f"save entry {key!r} holds {unparse(val)}, not the original {attr}"
         return f"save dict has no entry {key!r}"
